@@ -32,14 +32,15 @@ def pseudofunction_table(repo):
     """name -> (builder FunctionDef, default shift) from _PSEUDOFUNC_RESOLUTION"""
     m = repo.mod(MOD)
     tab = m.assign("_PSEUDOFUNC_RESOLUTION")
-    if not isinstance(tab, ast.Dict):
-        raise AnalysisError("_PSEUDOFUNC_RESOLUTION is not a dict literal")
+    from . import fin
+    val = fin.module_table(m, "_PSEUDOFUNC_RESOLUTION")
+    if not isinstance(val, dict) or not val:
+        raise AnalysisError("_PSEUDOFUNC_RESOLUTION is not a table built from the module's constants")
     out = {}
-    for k, v in zip(tab.keys, tab.values):
-        name = literal(k)
-        if not (isinstance(v, ast.Tuple) and len(v.elts) == 2 and isinstance(v.elts[0], ast.Name)):
+    for name, v in val.items():
+        if not (isinstance(name, str) and isinstance(v, tuple) and len(v) == 2 and isinstance(v[0], fin.FuncRef) and isinstance(v[1], int)):
             raise AnalysisError(f"_PSEUDOFUNC_RESOLUTION[{name!r}] is not (builder, default_shift)")
-        out[name] = (v.elts[0].id, literal(v.elts[1]))
+        out[name] = (str(v[0]), v[1])
     return m, tab, out
 
 
